@@ -3,7 +3,6 @@ import Pi2.Diag
 import Pi2.Gen.Lemmas
 import Pi2.Nary
 import Pi2.MM.SliceVerify
-import Pi2.PrettyTie
 /-!
 # `pi2drv` — the Lean model behind the line protocol (one request per line, one answer per line)
 -/
@@ -14,48 +13,6 @@ def optPatStr : Option Pat → String
   | none => "none"
 
 def fuel : Nat := 4000
-
-/-- the symbol names of a `PP` term, in order of first occurrence -/
-def ppSyms : PP → List String → List String
-  | .sym s, acc => if acc.contains s then acc else acc ++ [s]
-  | .imp l r, acc => ppSyms r (ppSyms l acc)
-  | .app l r, acc => ppSyms r (ppSyms l acc)
-  | .ex _ p, acc => ppSyms p acc
-  | .mu _ p, acc => ppSyms p acc
-  | .esub p _ q, acc => ppSyms q (ppSyms p acc)
-  | .ssub p _ q, acc => ppSyms q (ppSyms p acc)
-  | .napp _ args, acc => go args acc
-  | _, acc => acc
-where
-  go : List PP → List String → List String
-    | [], acc => acc
-    | a :: r, acc => go r (ppSyms a acc)
-
-/-- `pretty-gen MODE SYMTAB p`: the *translated* `Pattern.pretty` (`Gen.PyPretty.pretty`) on the object `p` stands for;
-MODE = table | empty (`PrettyOptions()`: the fallback branch) | simplify | simplify-empty; SYMTAB = the names of the
-symbols that occur in the definitions of the notation table (`(number name) …`, as numbered by the table dump); the
-other names of `p` get numbers from 5000 -/
-def prettyGen (mode : String) (symtab : List (Nat × String)) (p : PP) : String :=
-  let names := ppSyms p []
-  let code : String → Nat := fun s =>
-    match symtab.find? (·.2 == s) with
-    | some (k, _) => k
-    | none => 5000 + (names.idxOf? s).getD names.length
-  let σ : Nat → String := fun i =>
-    match symtab.find? (·.1 == i) with
-    | some (_, nm) => nm
-    | none => names.getD (i - 5000) ""
-  let opts? : Option PyP.PrettyOptions := match mode with
-    | "table" => some PrettyTie.tableOpts
-    | "empty" => some Gen.PyPretty.PrettyOptions_default
-    | "simplify" => some { PrettyTie.tableOpts with simplify_instantiations := true }
-    | "simplify-empty" => some { Gen.PyPretty.PrettyOptions_default with simplify_instantiations := true }
-    | _ => none
-  match opts?, PrettyTie.obj code p with
-  | some opts, some q =>
-    (match Gen.PyPretty.pretty σ fuel q opts with
-     | none => "fuel" | some none => "(raise ValueError)" | some (some s) => "s:" ++ s)
-  | _, _ => "bad-request"
 
 /-- `ktrace`: the whole pipeline: rules converted with one cached scope each, the initial configuration with a
 fresh scope, substitutions with the rule's scope object (which they may extend), `rewrite_event` per step -/
@@ -420,13 +377,6 @@ def handle (line : String) : String :=
     | "rule-inst", [a, d] =>
       match npatOfSexp a, nmapOfSexp d with
       | some a, some d => (match NPat.pyInst fuel a d with | none => "fuel" | some r => npatToStr r)
-      | _, _ => "bad-request"
-    | "pretty-gen", [.atom mode, .list tab, p] =>
-      let tab? : Option (List (Nat × String)) := tab.mapM fun (kv : Sexp) => match kv with
-        | .list [k, .atom nm] => do pure (← nat? k, nm)
-        | _ => none
-      match tab?, ppOfSexp p with
-      | some tab, some p => prettyGen mode tab p
       | _, _ => "bad-request"
     | "pretty", [p] =>
       match ppOfSexp p with
